@@ -817,6 +817,7 @@ func vfxCatch(f func()) (panicked bool, msg string) {
 //	majority-special : the majority fact is a suffrage-confirm (INIT) / not-processed (ACCEPT) fact
 //	draw             : voters sign the same fact, no majority set (stuck voteproofs are always this)
 //	split            : each voter signs a different fact (also an empty-proposal / empty-operations one), no majority
+//	X,dissent@p      : like X, but the sign fact listed at position p is for another fact (the order of sign facts matters to the decoder's majority lookup)
 func vfxShapeVoteproof(stage base.Stage, variant, result string, nvoters, nexp int, finished bool) base.Voteproof {
 	point := base.RawPoint(33, 1)
 	expels := vfxExpels(nexp, 33)
@@ -853,11 +854,22 @@ func vfxShapeVoteproof(stage base.Stage, variant, result string, nvoters, nexp i
 		fact = mk(0)
 	}
 
+	// "<result>,dissent@p": the voter listed at position p voted for another fact
+	dissent := -1
+	if i := strings.Index(result, ",dissent@"); i >= 0 {
+		dissent = int(result[i+len(",dissent@")] - '0')
+		result = result[:i]
+	}
+
 	sfs := make([]base.BallotSignFact, nvoters)
 	for i := range sfs {
 		f := fact
 		if result == "split" {
 			f = mk(i)
+		}
+
+		if i == dissent {
+			f = mk(1)
 		}
 
 		sfs[i] = vfxSignFact(f, vfxN(i), true)
